@@ -133,6 +133,7 @@ CONF = {
                      "controller-runtime fake client + the package's FakeCfgCache / plugin registration fixtures (reconciler level)",
                      "projection functions in /verif/harness (field reads only)"],
     "assumptions": [
+        "reconciler driver: where the controller's real config cache accepts the step's strategy unchanged (valid; an unset calculate policy counts as the default 'usage') it is used, fed with the ConfigMap only when the configuration changes, and two other nodes with strategy overrides (one through a node config + annotation, one through the annotation only) are reconciled first; otherwise the package's FakeCfgCache is used",
         "policy 'request' (memory only) is bounded with the node reservation as system term (documented formula, pinned by "
         "batchresource/plugin_test.go); system usage above the reservation is not demanded there (Reclaim!ReqPolicySysUsage = FALSE)",
         "cpu policies: default/usage/maxUsageRequest ('request' is not supported for cpu and not generated)",
